@@ -10,6 +10,7 @@ RULE = ('one record per (function, parameters, message); exhaustive lengths 0..=
 ASSUMPTIONS = ['hashlib (OpenSSL / CPython _blake2) is correct for SHA-1/2/3, RIPEMD-160, BLAKE2',
                'pure-Python Keccak model pinned by SHA-3 equivalence and Keccak KATs (selftest)']
 FLOORS = {'evaluations': 20000, 'distinct': 15000}
+THOROUGH_ROUNDS = 3   # thorough tier: generator passes with derived seeds (runner.gen_rounds)
 
 FIXED = ['sha1', 'sha224', 'sha256', 'sha384', 'sha512', 'sha512_224', 'sha512_256', 'sha3_224', 'sha3_256', 'sha3_384', 'sha3_512',
          'keccak224', 'keccak256', 'keccak384', 'keccak512', 'ripemd160', 'blake2b_224', 'blake2b_256', 'blake2b_384', 'blake2b_512',
